@@ -1,4 +1,235 @@
-/- C18 — property theorems (under construction). -/
-import Lmd.Cluster
+/-
+  C18 — cluster nodes partition the backends.
+
+  `redistribute online backends` (Lmd/Cluster.lean, `Nodes.redistribute` of pkg/lmd/nodes.go) gives, per
+  configured node in configuration order, the backends that node polls and answers for, from the view
+  `online` (which nodes answered the last ping) and the configured backend ids.
+
+  1. `length_nodes`            one list per configured node.
+  2. `assignment_partition`    with a node online the lists, concatenated, are the backend list: nothing
+                               lost, nothing twice, order kept (`assignment_partition_general` with empty
+                               ids, which lmd skips; `assignment_unique` for distinct ids: exactly one owner).
+  3. `offline_gets_nothing`    an offline node gets no backend.
+  4. `evenness`                online nodes get ⌊B/N⌋ or ⌈B/N⌉ backends (`evenness_quota`), exactly B mod N
+                               of them the larger number (`evenness_remainder`).
+  5. `takeover`                the backends of a node that went offline have an online owner in the new view.
+  6. `deterministic_view`      same view, same assignment.
+
+  Helper lemmas live in `Lmd.Lemmas.ClusterLemmas`.
+-/
+import Lmd.Lemmas.ClusterLemmas
+
 namespace Lmd.C18
+open Lmd Lmd.ClusterL
+
+/-! ## 1. one list per node -/
+
+/-- `redistribute` returns one backend list per configured node, online or not, whatever the backends. -/
+theorem length_nodes (online : List Bool) (bs : List String) :
+    (redistribute online bs).length = online.length := by
+  rw [redistribute, handOut_length, quotas_length]
+
+/-! ## 2. the lists partition the backends -/
+
+/-- The quotas cover the backends: with a node online they add up to at least the number of backends,
+    and to exactly that number when there are fewer online nodes than backends. -/
+theorem quotas_cover (online : List Bool) (n : Nat) (h : true ∈ online) :
+    n ≤ (quotas online n).sum ∧ ((online.filter id).length < n → (quotas online n).sum = n) :=
+  ⟨quotas_sum_ge_length online n (nOnline_pos_of_mem h),
+   fun hlt => quotas_sum_eq online n (nOnline_pos_of_mem h) hlt⟩
+
+/-- General form: if at least one node is online, the per-node lists concatenated in node order are
+    exactly the configured backend list without the empty ids (lmd skips a backend with an empty id). -/
+theorem assignment_partition_general (online : List Bool) (bs : List String) (h : true ∈ online) :
+    (redistribute online bs).flatten = bs.filter (· ≠ "") := by
+  rw [redistribute, handOut_flatten _ _ (quotas_sum_ge_length online bs.length (nOnline_pos_of_mem h))]
+  congr 1
+  funext b
+  by_cases hb : b = "" <;> simp [hb]
+
+/-- If at least one node is online and no backend id is empty, the per-node lists concatenated in node
+    order are exactly the backend list: every backend is assigned, none is assigned twice, none is lost,
+    and each node is responsible for a consecutive stretch of the configuration. -/
+theorem assignment_partition (online : List Bool) (bs : List String) (h : true ∈ online)
+    (hne : ∀ b ∈ bs, b ≠ "") : (redistribute online bs).flatten = bs := by
+  rw [redistribute, handOut_flatten _ _ (quotas_sum_ge_length online bs.length (nOnline_pos_of_mem h))]
+  exact filter_nonempty_id hne
+
+/-- Counting form (no assumption that ids are distinct): summed over the nodes, a backend id occurs in the
+    assignment exactly as often as in the configuration. -/
+theorem assignment_count (online : List Bool) (bs : List String) (h : true ∈ online)
+    (hne : ∀ b ∈ bs, b ≠ "") (b : String) :
+    ((redistribute online bs).map (List.count b)).sum = bs.count b := by
+  rw [← List.count_flatten, assignment_partition online bs h hne]
+
+/-- Distinct backend ids: every configured backend is in the list of exactly one node. -/
+theorem assignment_unique (online : List Bool) (bs : List String) (h : true ∈ online)
+    (hne : ∀ b ∈ bs, b ≠ "") (hd : bs.Nodup) (b : String) (hb : b ∈ bs) :
+    ∃ i : Nat, (∃ l : List String, (redistribute online bs)[i]? = some l ∧ b ∈ l) ∧
+      ∀ j : Nat, (∃ l : List String, (redistribute online bs)[j]? = some l ∧ b ∈ l) → j = i := by
+  have hp := assignment_partition online bs h hne
+  have hd' : (redistribute online bs).flatten.Nodup := by rw [hp]; exact hd
+  rw [List.Nodup, List.pairwise_flatten] at hd'
+  have hb' : b ∈ (redistribute online bs).flatten := by rw [hp]; exact hb
+  obtain ⟨l, hl, hbl⟩ := List.mem_flatten.1 hb'
+  obtain ⟨i, hi, rfl⟩ := List.getElem_of_mem hl
+  refine ⟨i, ⟨_, List.getElem?_eq_getElem hi, hbl⟩, ?_⟩
+  rintro j ⟨l', hj, hbl'⟩
+  obtain ⟨hj', rfl⟩ := List.getElem?_eq_some_iff.1 hj
+  have hpw := List.pairwise_iff_getElem.1 hd'.2
+  rcases Nat.lt_trichotomy j i with hlt | heq | hgt
+  · exact absurd rfl (hpw j i hj' hi hlt b hbl' b hbl)
+  · exact heq
+  · exact absurd rfl (hpw i j hi hj' hgt b hbl b hbl')
+
+/-! ## 3. offline nodes -/
+
+/-- A node that is offline in the view is responsible for no backend. -/
+theorem offline_gets_nothing (online : List Bool) (bs : List String) (i : Nat)
+    (h : online[i]? = some false) : (redistribute online bs)[i]? = some [] := by
+  obtain ⟨q, hq, h0, _⟩ := quotas_getElem? online bs.length i false h
+  obtain ⟨l, hl, hlen⟩ := handOut_getElem?_length_le (quotas online bs.length) bs i q hq
+  rw [h0 rfl] at hlen
+  rw [redistribute, hl, List.eq_nil_of_length_eq_zero (Nat.le_zero.1 hlen)]
+
+/-- Every configured backend (with a non-empty id) has an owner that is online in the view. -/
+theorem owner_online (online : List Bool) (bs : List String) (h : true ∈ online)
+    (hne : ∀ b ∈ bs, b ≠ "") (b : String) (hb : b ∈ bs) :
+    ∃ (j : Nat) (l : List String), online[j]? = some true ∧ (redistribute online bs)[j]? = some l ∧ b ∈ l := by
+  have hb' : b ∈ (redistribute online bs).flatten := by
+    rw [assignment_partition online bs h hne]; exact hb
+  obtain ⟨l, hl, hbl⟩ := List.mem_flatten.1 hb'
+  obtain ⟨j, hj, rfl⟩ := List.getElem_of_mem hl
+  have hj' : j < online.length := length_nodes online bs ▸ hj
+  refine ⟨j, _, ?_, List.getElem?_eq_getElem hj, hbl⟩
+  cases hc : online[j] with
+  | true => rw [List.getElem?_eq_getElem hj', hc]
+  | false =>
+    have := offline_gets_nothing online bs j (by rw [List.getElem?_eq_getElem hj', hc])
+    rw [List.getElem?_eq_getElem hj, Option.some.injEq] at this
+    rw [this] at hbl
+    cases hbl
+
+/-! ## 4. evenness -/
+
+/-- What one online node gets (no empty ids), with B backends and N online nodes: when N < B it is ⌊B/N⌋,
+    or ⌊B/N⌋ + 1 — the latter only if N does not divide B, so it is ⌈B/N⌉; when N ≥ B it is at most one. -/
+theorem evenness_quota (online : List Bool) (bs : List String) (hne : ∀ b ∈ bs, b ≠ "") (i : Nat)
+    (hi : online[i]? = some true) :
+    ∃ l, (redistribute online bs)[i]? = some l ∧
+      ((online.filter id).length < bs.length →
+        l.length = bs.length / (online.filter id).length ∨
+        (l.length = bs.length / (online.filter id).length + 1 ∧ 0 < bs.length % (online.filter id).length)) ∧
+      (bs.length ≤ (online.filter id).length → l.length ≤ 1) := by
+  obtain ⟨q, hq, _, h1⟩ := quotas_getElem? online bs.length i true hi
+  obtain ⟨hge, hlt⟩ := h1 rfl
+  by_cases hc : (online.filter id).length < bs.length
+  · have hpos : 0 < nOnline online :=
+      nOnline_pos_of_mem (List.mem_of_getElem? hi)
+    obtain ⟨l, hl, hlen⟩ := handOut_getElem?_length (quotas online bs.length) bs i q hq hne
+      (Nat.le_of_eq (quotas_sum_eq online bs.length hpos hc))
+    refine ⟨l, hl, fun _ => ?_, fun h => absurd hc (by omega)⟩
+    rw [hlen]; exact hlt hc
+  · obtain ⟨l, hl, hlen⟩ := handOut_getElem?_length_le (quotas online bs.length) bs i q hq
+    refine ⟨l, hl, fun h => absurd h hc, fun h => ?_⟩
+    rw [hge h] at hlen; exact hlen
+
+/-- Backends are spread as evenly as the counts allow: the numbers of backends of any two online nodes
+    differ by at most one. -/
+theorem evenness (online : List Bool) (bs : List String) (hne : ∀ b ∈ bs, b ≠ "") (i j : Nat)
+    (hi : online[i]? = some true) (hj : online[j]? = some true) :
+    ∃ li lj, (redistribute online bs)[i]? = some li ∧ (redistribute online bs)[j]? = some lj ∧
+      li.length ≤ lj.length + 1 ∧ lj.length ≤ li.length + 1 := by
+  obtain ⟨li, hli, ai, bi⟩ := evenness_quota online bs hne i hi
+  obtain ⟨lj, hlj, aj, bj⟩ := evenness_quota online bs hne j hj
+  refine ⟨li, lj, hli, hlj, ?_⟩
+  by_cases hc : (online.filter id).length < bs.length
+  · have := ai hc; have := aj hc; omega
+  · have := bi (by omega); have := bj (by omega); omega
+
+/-- With fewer online nodes than backends every node gets exactly its quota (no empty ids). -/
+theorem lengths_eq_quotas (online : List Bool) (bs : List String) (h : true ∈ online)
+    (hne : ∀ b ∈ bs, b ≠ "") (hc : (online.filter id).length < bs.length) :
+    (redistribute online bs).map List.length = quotas online bs.length := by
+  apply List.ext_getElem?
+  intro i
+  rw [List.getElem?_map]
+  cases hq : (quotas online bs.length)[i]? with
+  | none =>
+    have : (redistribute online bs)[i]? = none := by
+      rw [List.getElem?_eq_none_iff] at hq ⊢
+      rw [length_nodes]; rw [quotas_length] at hq; exact hq
+    rw [this]; rfl
+  | some q =>
+    obtain ⟨l, hl, hlen⟩ := handOut_getElem?_length (quotas online bs.length) bs i q hq hne
+      (Nat.le_of_eq (quotas_sum_eq online bs.length (nOnline_pos_of_mem h) hc))
+    rw [redistribute, hl, Option.map_some, hlen]
+
+/-- With N online nodes and B > N backends (no empty ids), exactly B mod N nodes get the larger number
+    ⌊B/N⌋ + 1: the remainder is spread, one backend each, and not heaped on one node. -/
+theorem evenness_remainder (online : List Bool) (bs : List String) (h : true ∈ online)
+    (hne : ∀ b ∈ bs, b ≠ "") (hc : (online.filter id).length < bs.length) :
+    (((redistribute online bs).map List.length).filter
+        (· = bs.length / (online.filter id).length + 1)).length
+      = bs.length % (online.filter id).length := by
+  rw [lengths_eq_quotas online bs h hne hc, quotas_eq, if_neg (by show ¬ _ ≤ (online.filter id).length; omega)]
+  have := quotasFrom_count_succ (bs.length / nOnline online) (bs.length % nOnline online) online
+  have hm := Nat.mod_lt bs.length (nOnline_pos_of_mem h)
+  rw [Nat.min_eq_left (Nat.le_of_lt hm)] at this
+  exact this
+
+/-! ## 5. takeover -/
+
+/-- When the view changes from `online` to `online'` (a node online in each), both assignments partition
+    the same backend list; so a backend that belonged to a node which is offline in the new view belongs,
+    after the redistribution, to a node that is online in the new view. -/
+theorem takeover (online online' : List Bool) (bs : List String) (h : true ∈ online)
+    (h' : true ∈ online') (hne : ∀ b ∈ bs, b ≠ "") :
+    (redistribute online bs).flatten = (redistribute online' bs).flatten ∧
+    ∀ (i : Nat) (l : List String) (b : String), online'[i]? = some false → (redistribute online bs)[i]? = some l → b ∈ l →
+      ∃ (j : Nat) (l' : List String), online'[j]? = some true ∧ (redistribute online' bs)[j]? = some l' ∧ b ∈ l' := by
+  refine ⟨by rw [assignment_partition online bs h hne, assignment_partition online' bs h' hne], ?_⟩
+  intro i l b _ hl hb
+  have hb' : b ∈ bs := by
+    rw [← assignment_partition online bs h hne]
+    exact List.mem_flatten.2 ⟨l, List.mem_of_getElem? hl, hb⟩
+  exact owner_online online' bs h' hne b hb'
+
+/-! ## 6. same view, same assignment -/
+
+/-- The assignment depends on the view and the configured backends only: two nodes that see the same
+    nodes online and have the same backend configuration compute the same list for every node index,
+    so they agree on who is responsible for what. -/
+theorem deterministic_view (online₁ online₂ : List Bool) (bs₁ bs₂ : List String)
+    (hv : online₁ = online₂) (hb : bs₁ = bs₂) (i : Nat) :
+    (redistribute online₁ bs₁)[i]? = (redistribute online₂ bs₂)[i]? := by
+  rw [hv, hb]
+
+/-! ## non-vacuity -/
+
+/-- four backends on four nodes of which the second is offline -/
+example : redistribute [true, false, true, true] ["b0", "b1", "b2", "b3"]
+    = [["b0", "b1"], [], ["b2"], ["b3"]] := by decide
+
+/-- the hypotheses of `assignment_partition`, `evenness`, `evenness_remainder` hold for that instance -/
+example : true ∈ [true, false, true, true] ∧ (∀ b ∈ ["b0", "b1", "b2", "b3"], b ≠ "") ∧
+    ([true, false, true, true].filter id).length < ["b0", "b1", "b2", "b3"].length := by decide
+
+/-- seven backends on three online nodes: 3, 2, 2 — the remainder is spread -/
+example : (redistribute [true, true, false, true] ["a", "b", "c", "d", "e", "f", "g"]).map List.length
+    = [3, 2, 0, 2] := by decide
+
+/-- more online nodes than backends: one each for the first nodes -/
+example : redistribute [true, true, true] ["a", "b"] = [["a"], ["b"], []] := by decide
+
+/-- a backend with an empty id is skipped (general form of the partition) -/
+example : redistribute [true, true] ["a", "", "b"] = [["a"], ["b"]] := by decide
+
+/-- a node online is needed: with no node online nothing is assigned -/
+example : (redistribute [false, false] ["a", "b"]).flatten = [] := by decide
+
+/-- takeover: node 0 goes offline, its backends move to nodes that are online -/
+example : redistribute [false, true, true] ["a", "b", "c", "d"] = [[], ["a", "b"], ["c", "d"]] ∧
+    redistribute [true, true, true] ["a", "b", "c", "d"] = [["a", "b"], ["c"], ["d"]] := by decide
+
 end Lmd.C18
